@@ -5,9 +5,12 @@ CONSTANTS
   MaxLen = 8
   MaxChunk = 8
   Streams <- AllStreams
+  LiveIds <- Live05
 INIT RInit
 NEXT RNext
 INVARIANT DeliveredIsContract
 INVARIANT BufferIsTail
+INVARIANT NoLineWaiting
 INVARIANT ArgvInBounds
+INVARIANT AbsentParamIsNull
 INVARIANT EofClean
